@@ -976,7 +976,7 @@ func fam(name string, conf map[string]interface{}, unsafe bool) drv.Scenario {
 
 // gfam: gated workload family (word x gate menu), default schedule.
 func gfam(name string, conf map[string]interface{}, unsafe bool, quick bool) drv.Scenario {
-	words := lww.GatedWords(mc.Tier())
+	words := lww.Words(lww.FamilyAlphabet+"z", 2)
 	if mc.Tier() != "thorough" {
 		words = lww.Words("bdz", 2) // every execution recovers dozens of crash images: keep quick small
 	}
